@@ -413,6 +413,6 @@ SUBS = [
 
 MANIFEST = {
     "technique": "property-based testing (Hypothesis structured model generator) + exhaustive enumeration of relation triples, oracle = reference classification computed from a walk over public attributes",
-    "level_text": "Generated-input search: thousands of random models over the whole quantified domain plus every (min,max,n) with n<=8, each query compared with an independently computed reference. Establishes absence only for the enumerated triples; elsewhere it is sampling.",
+    "level_text": "Generated-input search: thousands of random models over the whole quantified domain plus every (min,max,n) with n<=8, each query compared with an independently computed reference. Establishes absence only for the enumerated triples; elsewhere it is sampling. Also: edit histories (one object queried, edited in place incl. formulas replaced through the `ast` property, queried again; compared with the object graph and a fresh build), C18's bipartite big constraints, and the one-way backstop for the strict-complex listing. A sample of every sub-check additionally runs in a `python -OO` child with the root logger at DEBUG.",
     "level_note": "Trusted: the reference table in vf/props/c03.py (rel_class and the feature/constraint filters), the walk over public attributes, Hypothesis. n=1,(0,0) leaves is_cardinal unconstrained.",
 }
